@@ -22,7 +22,7 @@ from pyvc.source import NotFound
 from contracts import wiring as W
 
 W_N = "contracts.wiring_native"
-RP = {"module": W_N, "func": "replay_history", "kwargs": {}, "vars": {}}
+RP = {"module": W_N, "func": "replay_history", "kwargs": {"budget": 1500}, "vars": {}}
 LOADERS = {"Antecedent.load": W.AntecedentLoad(), "Consequent.load": W.ConsequentLoad()}
 RULE_FIELDS = {"Rule.activation_degree", "Rule.triggered", "Antecedent.expression", "Consequent.conclusions"}
 ZERO = x2xr(xr.const(0.0))
@@ -334,6 +334,16 @@ def verify_no_custom_copy(run):
                 if isinstance(n, ast.Global):
                     bad.append(f"{m}.{q}: global {n.names}")
     run.add(static("package/no_global_state_written", not bad, f"{bad}" if bad else "no function of the package declares a global it assigns", meta={"replay": RP}))
+    # deepcopy treats weak references (and modules, functions, classes) as atomic: an attribute held through weakref would still point into the ORIGINAL engine
+    weak = []
+    for m, tree in src.mod.items():
+        for n in ast.walk(tree):
+            if isinstance(n, (ast.Import, ast.ImportFrom)) and ("weakref" in [a.name for a in n.names] or getattr(n, "module", None) == "weakref"):
+                weak.append(f"fuzzylite/{m}.py:{n.lineno}")
+            if isinstance(n, ast.Attribute) and isinstance(n.value, ast.Name) and n.value.id == "weakref":
+                weak.append(f"fuzzylite/{m}.py:{n.lineno}")
+    run.add(static("package/no_weak_references", not weak, f"weakref used at {sorted(set(weak))[:6]}: objects reached through a weak reference are shared by a deep copy" if weak
+                   else "no module of the package uses weakref: every object an engine reaches is reached through strong references and is copied (A-DEEPCOPY)", meta={"replay": RP}))
 
 
 def verify_history_ingredients(run):
@@ -389,10 +399,10 @@ def build(run):
             run.add(undecided(f"{fq}/subset", f"outside the verified subset: {ex_}", fn=fq, meta={"replay": RP}))
         except NotFound as ex_:
             run.add(static(f"{fq}/exists", False, f"function under contract not found: {ex_}", fn=fq))
-    budget = 60 if run.tier == "quick" else 1200
+    budget = 1500 if run.tier == "quick" else 30000
     run.bounded("engine.Engine/history_restart_copy.runtime", W_N, "replay_history", [dict(seed=run.seed, budget=budget)],
                 bound=f"{budget} generated engines (incl. Linear and Function terms holding engine references) x random interleavings of length <= 8 of {{set inputs, process, restart, copy and switch to the copy, "
-                      "edit a parameter of the copy (in place and by assignment), toggle an enabled flag and restore it, edit a rule text and reload}; each result compared with a freshly built engine and the untouched original")
+                      "edit a parameter of the copy (in place and by assignment), toggle an enabled flag and restore it, edit a rule text and reload}; each result (output values, fuzzy outputs, per-rule degree and triggered flag) compared with a freshly built engine and the untouched original")
 
 
 if __name__ == "__main__":
